@@ -23,11 +23,35 @@ pub trait ExPattern: Sized {
     type ExternalTraitSpecificationFor: core::str::pattern::Pattern;
 }
 
-pub assume_specification<P: core::str::pattern::Pattern>[ str::starts_with::<P> ](s: &str, pat: P) -> (r: bool);
+// text of a pattern argument: only known for `&str` patterns (axiom below)
+pub uninterp spec fn pat_view<P>(p: P) -> Seq<char>;
+#[verifier::external_body]
+pub broadcast proof fn axiom_pat_view_str(p: &str)
+    ensures #[trigger] pat_view::<&str>(p) == p@
+{}
+pub open spec fn has_prefix(s: Seq<char>, p: Seq<char>) -> bool {
+    p.len() <= s.len() && forall|i: int| 0 <= i < p.len() ==> s[i] == p[i]
+}
+pub assume_specification<P: core::str::pattern::Pattern>[ str::starts_with::<P> ](s: &str, pat: P) -> (r: bool)
+    ensures r == has_prefix(s@, pat_view(pat));
 
 pub assume_specification[ str::to_lowercase ](s: &str) -> (r: String);
 
-pub assume_specification[ str::to_ascii_lowercase ](s: &str) -> (r: String);
+// ASCII lower-casing: an uninterpreted function of the text (the contracts only compare its result with literals)
+pub uninterp spec fn spec_ascii_lower(s: Seq<char>) -> Seq<char>;
+pub assume_specification[ str::to_ascii_lowercase ](s: &str) -> (r: String)
+    ensures r@ == spec_ascii_lower(s@);
+pub assume_specification[ str::eq_ignore_ascii_case ](a: &str, b: &str) -> (r: bool)
+    ensures r == (spec_ascii_lower(a@) == spec_ascii_lower(b@));
+// `String == &str` compares the texts
+pub assume_specification<'a>[ <String as PartialEq<&'a str>>::eq ](a: &String, b: &&str) -> (r: bool)
+    ensures r == (a@ == b@);
+pub assume_specification<'a>[ <&'a str as PartialEq<String>>::eq ](a: &&'a str, b: &String) -> (r: bool)
+    ensures r == (a@ == b@);
+pub assume_specification[ <String as PartialEq<str>>::eq ](a: &String, b: &str) -> (r: bool)
+    ensures r == (a@ == b@);
+pub assume_specification[ <str as PartialEq<String>>::eq ](a: &str, b: &String) -> (r: bool)
+    ensures r == (a@ == b@);
 
 #[verifier::external_type_specification]
 #[verifier::external_body]
